@@ -96,6 +96,24 @@ CREATE OR REPLACE MACRO vtl_period_normalize(input VARCHAR) AS (
 );
 
 
+-- Calendar validity of a canonical (normalized) period text: the period number exists in
+-- that year (S 1-2, Q 1-4, M 1-12, W 1-52/53 by the ISO calendar, D 1-365/366).
+CREATE OR REPLACE MACRO vtl_period_in_calendar(p VARCHAR) AS (
+    CASE
+        WHEN p IS NULL THEN TRUE
+        WHEN LENGTH(p) = 5 THEN TRUE
+        WHEN SUBSTR(p, 6, 1) = 'S' THEN CAST(SUBSTR(p, 7) AS INTEGER) BETWEEN 1 AND 2
+        WHEN SUBSTR(p, 6, 1) = 'Q' THEN CAST(SUBSTR(p, 7) AS INTEGER) BETWEEN 1 AND 4
+        WHEN SUBSTR(p, 6, 1) = 'M' THEN CAST(SUBSTR(p, 7) AS INTEGER) BETWEEN 1 AND 12
+        WHEN SUBSTR(p, 6, 1) = 'W' THEN CAST(SUBSTR(p, 7) AS INTEGER) BETWEEN 1 AND
+             WEEKOFYEAR(MAKE_DATE(CAST(SUBSTR(p, 1, 4) AS INTEGER), 12, 28))
+        WHEN SUBSTR(p, 6, 1) = 'D' THEN CAST(SUBSTR(p, 7) AS INTEGER) BETWEEN 1 AND
+             DAYOFYEAR(MAKE_DATE(CAST(SUBSTR(p, 1, 4) AS INTEGER), 12, 31))
+        ELSE FALSE
+    END
+);
+
+
 -- ============================================================================
 -- PARSE: VARCHAR -> vtl_time_period
 -- ============================================================================
